@@ -221,14 +221,33 @@ Theorem C16_io_poll_respects_timeout :
 Proof. exact io_poll_respects_timeout. Qed.
 Print Assumptions C16_io_poll_respects_timeout.
 
-(* each retry passes exactly given - elapsed-so-far (full statement since /repo c841fbc; the
-   only other call is the non-blocking probe of the metrics variant, at time 0) *)
+(* each retry passes exactly given - elapsed-so-far (full statement since /repo c841fbc); the
+   only other calls are the non-blocking probe of the metrics variant, at time 0, and the
+   re-polls after a completely filled batch (next theorem) *)
 Theorem C16_io_poll_retry_exact :
   forall metrics T o,
   0 <= T -> r_ok (io_poll metrics T o) = true ->
-  Forall (fun c => fst c = T - snd c \/ (metrics = true /\ c = (0, 0))) (r_calls (io_poll metrics T o)).
+  Forall (fun c => fst c = T - snd c \/ (metrics = true /\ c = (0, 0)) \/ In c (r_full_calls (io_poll metrics T o)))
+         (r_calls (io_poll metrics T o)).
 Proof. exact io_poll_retry_exact. Qed.
 Print Assumptions C16_io_poll_retry_exact.
+
+(* after a completely filled batch (nfds == 1024) the function polls again WITHOUT blocking:
+   whatever the script, the entry timeout (including -1) and the metrics flag, every epoll_pwait
+   call that follows a full batch has timeout 0; and (for admissible scripts, T >= 0) the total
+   blocking time never exceeds the entry timeout.  The example shows such calls exist. *)
+Theorem C16_io_poll_full_batch_repoll_nonblocking :
+  (forall metrics T o, Forall (fun c => fst c = 0) (r_full_calls (io_poll metrics T o))) /\
+  (forall metrics T o, 0 <= T -> r_ok (io_poll metrics T o) = true -> r_blocked (io_poll metrics T o) <= T) /\
+  (r_calls (io_poll false 200 [PFull 10]) = [(0, 10); (200, 0)] /\
+   r_full_calls (io_poll false 200 [PFull 10]) = [(0, 10)] /\
+   r_blocked (io_poll false 200 [PFull 10]) = 10 /\
+   r_full_calls (io_poll true (-1) [PTimeout; PFull 5; PFull 0; PIntr 0]) = [(0, 5); (0, 5)]).
+Proof.
+  split; [exact io_poll_full_batch_nonblocking|]. split; [|exact io_poll_full_batch_example].
+  intros m T o HT OK. exact (proj1 (io_poll_respects_timeout m T o HT OK)).
+Qed.
+Print Assumptions C16_io_poll_full_batch_repoll_nonblocking.
 
 (* interrupted calls are transparent: any two runs of interruptions that report the same total
    elapsed time (any number, any lengths), in front of any script, give the same wake-up time,
